@@ -8,9 +8,9 @@ log=/tmp/mv/$id.log
 : > $log
 git -C /repo worktree add -q --detach $wt HEAD >>$log 2>&1 || { echo "$id worktree failed"; exit 1; }
 cd $wt
-/venv/bin/python $src/demo.py >>$log 2>&1; d0=$?
+PYTHONPATH=$wt /venv/bin/python $src/demo.py >>$log 2>&1; d0=$?
 git apply $src/patch.diff >>$log 2>&1 || { echo "$id APPLY FAILED"; git -C /repo worktree remove --force $wt; exit 1; }
-/venv/bin/python $src/demo.py >>$log 2>&1; d1=$?
+PYTHONPATH=$wt /venv/bin/python $src/demo.py >>$log 2>&1; d1=$?
 /venv/bin/python -m pytest -q -p no:cacheprovider -n 3 --timeout=900 xrspatial/tests 2>&1 | tail -4 >>$log
 tests=$(grep -E "passed|failed" $log | tail -1)
 cd /
